@@ -460,6 +460,50 @@ pub fn structured_words(rng: &mut Prng) -> [u8; 32] {
         0xf777_7777_7777_7778,
         0x0fff_ffff_ffff_ffff,
     ];
+    if rng.chance(1, 5) {
+        // digit-periodic values: one w-bit digit (w = 4 ... 8, and the 51/52/26/29-bit limb widths) repeated through all
+        // 256 bits - the inputs on which a signed-window recoding or a limb-wise carry chain sits exactly on its edge -
+        // with individual 64-bit words then saturated, emptied or randomised so that carries arrive from below
+        let w = [4usize, 5, 5, 6, 6, 7, 7, 8, 26, 29, 51, 52][rng.below(12) as usize];
+        let half = 1u64 << (w.min(63) - 1);
+        let d: u64 = match rng.below(5) {
+            0 => half - 1,
+            1 => half,
+            2 => (half << 1).wrapping_sub(1),
+            3 => half + 1,
+            _ => 1,
+        };
+        let mut bits = [false; 256];
+        let mut i = 0;
+        while i < 256 {
+            for j in 0..w {
+                if i + j < 256 {
+                    bits[i + j] = (d >> j) & 1 == 1;
+                }
+            }
+            i += w;
+        }
+        let mut b = [0u8; 32];
+        for (i, bit) in bits.iter().enumerate() {
+            if *bit {
+                b[i / 8] |= 1 << (i % 8);
+            }
+        }
+        for wi in 0..4 {
+            match rng.below(10) {
+                0 => b[wi * 8..wi * 8 + 8].copy_from_slice(&u64::MAX.to_le_bytes()),
+                1 => b[wi * 8..wi * 8 + 8].copy_from_slice(&0u64.to_le_bytes()),
+                2 => b[wi * 8..wi * 8 + 8].copy_from_slice(&rng.next().to_le_bytes()),
+                3 => {
+                    for x in b[wi * 8..wi * 8 + 8].iter_mut() {
+                        *x = !*x;
+                    }
+                }
+                _ => {}
+            }
+        }
+        return b;
+    }
     let grain = [8usize, 8, 8, 4, 2][rng.below(5) as usize];
     let mut b = [0u8; 32];
     // a run-wide common word makes "all words equal" and "words cancel" inputs likely
